@@ -110,6 +110,56 @@ def check_writer(rep, prog, impl, stats, chunks="-", with_model=True, only_k=Non
     return ref
 
 
+def capacities_for(log, final_len):
+    """capacities of a full device: every write boundary of the fault-free run (start and end of every write)
+    -2..+2 bytes, a few places inside every page, and the sizes at which everything just fits / just does not"""
+    caps = set()
+    for pos, bs in log:
+        for b in (pos, pos + len(bs)):
+            caps.update(b + d for d in (-2, -1, 0, 1, 2))
+    for page in range(0, final_len, 1024):
+        caps.update(page + d for d in (16, 47, 48, 49, 500, 1019, 1020, 1021, 1023))
+    caps.update([0, 1, final_len - 1, final_len, final_len + 1, final_len + 1024])
+    return sorted(c for c in caps if 0 <= c <= final_len + 1024)
+
+
+def check_capacity(rep, prog, impl, stats, chunks="-", only_cap=None):
+    """a device of fixed capacity (write returns Ok(0) once it is full, a short count when a write straddles the
+    capacity): some call up to and including finalize returns an error, or finalize returned ok and the device
+    holds exactly the complete file of the run on an unbounded device"""
+    if prog.get("nofin"):
+        return
+    text = crash.prog_text(prog)
+    rdict = dict(kind="capacity-writer", items=[crash.item_tok(i) for i in prog["items"]], finx=bool(prog.get("finx")), chunks=chunks)
+    ref = crash.parse_cw(core.run_one(impl, crash.cw_line(prog, chunks=chunks, flags=("stop", "log"))))
+    if ref["crash"] or any(crash.is_fail_tok(t) for t in ref["outs"]):
+        raise core.InfraError("C16 generator produced a program the writer rejects: %s -> %s" % (text[:200], ref["raw"][:200]))
+    caps = capacities_for(ref["log"], ref["len"]) if only_cap is None else [only_cap]
+    ctok = lambda c: ("cap%d" % c) if chunks == "-" else "%s/cap%d" % (chunks, c)
+    res = core.run_cases(impl, [crash.cw_line(prog, chunks=ctok(c), flags=("stop",)) for c in caps])
+    rep.count(len(caps))
+    stats["capacity_points"] += len(caps)
+    for c, line in zip(caps, res):
+        a = crash.parse_cw(line)
+        outs = a["outs"]
+        bad = None
+        if a["crash"] or "P" in outs or "dropP" in outs or "new:P" in outs:
+            bad = ("c16-panic", "a writer call panicked on a device of capacity %d bytes: %s" % (c, " ".join(outs)[:160]))
+        elif any(crash.is_fail_tok(t) for t in outs):
+            stats["capacity_errors"] += 1
+            if c >= ref["len"]:
+                bad = ("c16-spurious-error", "the complete file (%d bytes) fits on a device of capacity %d, yet a call failed: %s" % (ref["len"], c, " ".join(outs)[:120]))
+        else:
+            stats["capacity_ok"] += 1
+            if (a["len"], a["h"]) != (ref["len"], ref["h"]):
+                bad = ("c16-full-device-not-surfaced",
+                       "device of capacity %d bytes (write returns Ok(0) when full): every call including finalize returned ok (%s) but the device holds %s bytes "
+                       "(hash %s), not the complete file of %d bytes (hash %s)" % (c, " ".join(outs)[:80], a["len"], a["h"], ref["len"], ref["h"]))
+        if bad:
+            stats["direct_bad"] += 1
+            rep.violation(bad[0], bad[1] + " [%s]%s" % (text[:100], "" if chunks == "-" else " chunks " + chunks), dict(rdict, capacity=c))
+
+
 def make_files(rng, impl, tier):
     """finalized files with their reader operations"""
     P = crash.SMALL_PROTOS
@@ -303,11 +353,14 @@ def run(rep, tier, rng, replay=None):
     rep.cov["trusted_base"] = core.TRUSTED_COMMON + [
         "fault model: exactly one device operation (read, write, seek or flush call) fails with an I/O error and has no effect; short transfers follow a cyclic chunk schedule",
         "the model device has no short transfers: chunking is checked on the implementation only (results and bytes against the unchunked run)",
+        "full device (write returns Ok(0)): direct oracle on the implementation only - the model device grows without bound, and the chunked device of Model/DeviceChunked.v "
+        "transfers at least one byte per call (its write_all loop has the WriteZero branch of std, proved unreachable there), so a 0-byte write is not expressible in the fault model of the proofs",
         "the XML text is taken from the implementation's fault-free run and given to the writer model as an input; a faulted program stops at its first failing call on both sides"]
     if not ok:
         return
     impl = core.ensure_harness("debug")
-    stats = dict(writer_fault_points=0, reader_fault_points=0, chunk_runs=0, where={}, direct_bad=0, corr_bad=0)
+    stats = dict(writer_fault_points=0, reader_fault_points=0, chunk_runs=0, where={}, direct_bad=0, corr_bad=0,
+                 capacity_points=0, capacity_errors=0, capacity_ok=0)
     if replay:
         k = replay.get("kind")
         if k in ("fault-writer", "chunk-writer"):
@@ -316,6 +369,9 @@ def run(rep, tier, rng, replay=None):
                 check_writer(rep, prog, impl, stats, chunks=replay.get("chunks", "-"), with_model=replay.get("chunks", "-") == "-", only_k=replay.get("fault"))
             else:
                 check_chunking(rep, [prog], [], impl, stats, [replay["chunks"]])
+        elif k == "capacity-writer":
+            prog = dict(items=[crash.parse_item(t) for t in replay["items"]], finx=replay.get("finx", False))
+            check_capacity(rep, prog, impl, stats, chunks=replay.get("chunks", "-"), only_cap=replay.get("capacity"))
         elif k in ("fault-reader", "chunk-reader"):
             prog = dict(items=[crash.parse_item(t) for t in replay["file_items"]])
             a = crash.parse_cw(core.run_one(impl, crash.cw_line(prog, flags=("dump",))))
@@ -344,6 +400,11 @@ def run(rep, tier, rng, replay=None):
         for prog in progs[1:1 + nf]:
             check_writer(rep, prog, impl, stats, chunks=c, with_model=False)
         check_readers(rep, files[:1] if tier == "quick" else files, impl, stats, chunks=c, with_model=False)
+    # a full device: capacity swept over every write boundary; also with short transfers
+    for prog in progs:
+        check_capacity(rep, prog, impl, stats)
+    for prog in progs[1:1 + nf]:
+        check_capacity(rep, prog, impl, stats, chunks="7,1,300")
     rep.cov["observations"] = observe_stale_page(impl)
     rep.cov["exhaustive"] = True
     rep.cov.update(programs=len(progs), program_tags=[p["tag"] for p in progs][:10], reader_files=len(files),
@@ -351,7 +412,9 @@ def run(rep, tier, rng, replay=None):
                    total_fault_points=stats["writer_fault_points"] + stats["reader_fault_points"],
                    chunk_schedules=SCHEDULES, chunk_schedules_combined_with_faults=FAULT_SCHEDULES, chunked_runs=stats["chunk_runs"],
                    failing_call_distribution=stats["where"], direct_failures=stats["direct_bad"], correspondence_failures=stats["corr_bad"],
-                   traces_validated_against_impl=stats["writer_fault_points"] + stats["reader_fault_points"])
+                   traces_validated_against_impl=stats["writer_fault_points"] + stats["reader_fault_points"],
+                   full_device_capacities=stats["capacity_points"], full_device_runs_with_error=stats["capacity_errors"],
+                   full_device_runs_all_ok_and_complete=stats["capacity_ok"])
     rep.sample(dict(kind="writer program", text=crash.prog_text(progs[1])[:200]))
     rep.sample(dict(kind="reader session", ops=files[0]["sess"]))
     rep.cov["rule"] = ("writer programs (blobs, images, point clouds, dropped sub-writers, writer dropped without finalize) and reader cases (open + list + read everything, a session of "
@@ -360,4 +423,7 @@ def run(rep, tier, rng, replay=None):
                        "prefix of the points), never a panic, never success - except a fault inside Drop after finalize returned, which is swallowed; whenever finalize returned ok the device "
                        "equals the fault-free file. Chunk schedules: identical results and byte-identical files; two schedules also combined with every fault index. Correspondence: for every "
                        "fault index the model gives the same results, device length/hash, operation count and write-log hash (writer) / the same results and operation count (reader). "
-                       "distinct = distinct writer programs")
+                       "Full device: the writer programs on a device of fixed capacity whose write returns Ok(0) once it is full (a short count when a write straddles the capacity); the "
+                       "capacity is swept over every write boundary of the unbounded run -2..+2 bytes, places inside every page and the sizes around the complete file, also with a chunk "
+                       "schedule. Oracle: some call up to and including finalize returns an error (never a panic), or every call returned ok and the device holds exactly the complete file; "
+                       "if the file fits no call fails. Implementation only (no model counterpart). distinct = distinct writer programs")
